@@ -191,8 +191,8 @@ copy_an_data(int32 infile_id, int32 outfile_id, int32 ref_in, int32 tag_in, int3
             printf("Failed to create AN %d of <%s>\n", i, path);
             continue;
         }
-        /* Write the annotation  */
-        if (ANwriteann(ann_out, buf, ann_length) == FAIL) {
+        /* Write the annotation: the terminating null read for a label is not part of its text */
+        if (ANwriteann(ann_out, buf, is_label ? ann_length - 1 : ann_length) == FAIL) {
             printf("Failed to write AN %d of <%s>\n", i, path);
         }
         if (ANendaccess(ann_out) == FAIL) {
